@@ -95,6 +95,7 @@ func tokenOf(args []string) (kind, token string) {
 var defaultScript = simos.Script{LifeMs: 1000, Exit: 0, TermLagMs: 0}
 
 type runCtx struct {
+	started        *simsync.Event
 	sweepSem       *simsync.Sem
 	sweepCancelled *bool
 	sc       *Scenario
@@ -210,6 +211,8 @@ func RunScenario(t *testing.T, sc *Scenario, tape []int32) *RunResult {
 	sweepCancelled := false
 	rc.sweepSem, rc.sweepCancelled = &sweepSem, &sweepCancelled
 	obsStop := false
+	var started simsync.Event
+	rc.started = &started
 	cfg := simsync.Config{
 		Seed: sc.Seed, Tape: tape, Strategy: sc.Strategy, IterMode: sc.IterMode, IterRot: sc.IterRot,
 		MaxSteps: 60000, Horizon: 3 * time.Hour,
@@ -221,14 +224,21 @@ func RunScenario(t *testing.T, sc *Scenario, tape []int32) *RunResult {
 			}
 		}
 	}
-	if sc.Observe {
-		cfg.Stable = func() bool {
-			if obsStop || rc.proj == nil {
-				return false
-			}
-			obsSem.Post()
+	cfg.Stable = func() bool {
+		if rc.proj == nil {
+			return false
+		}
+		if !started.IsSet() {
+			// the first stable point: Run() has registered and released everything it
+			// starts by itself; API clients begin from here
+			started.Set()
 			return true
 		}
+		if obsStop || !sc.Observe {
+			return false
+		}
+		obsSem.Post()
+		return true
 	}
 	body := func() {
 		simlog.Add(simlog.Event{Kind: "run.begin", A: sc.Prop, N: int(sc.Seed)})
@@ -360,6 +370,9 @@ func b2i(b bool) int {
 
 // runClient executes the scripted API operations of one client.
 func (rc *runCtx) runClient(c *Client) {
+	if c.Name != "sweep" {
+		rc.started.Wait()
+	}
 	start := simsync.Elapsed()
 	if c.Name == "sweep" {
 		rc.sweepSem.Wait()
